@@ -30,6 +30,26 @@ Proof.
     split; try discriminate; try lia; intros; reflexivity.
 Qed.
 
+(* tls.CreateSignature succeeds exactly for an RFC 5246 hash code, an RSA / ECDSA private key
+   value and a successful signing primitive; what it returns declares the hash code it was
+   asked for and the key type's signature code; never a panic *)
+Lemma create_signature_spec sign_ok pk h :
+  (forall ha a, create_signature sign_ok pk h = Ok (ha, a) <->
+     ha = h /\ 1 <= h <= 6 /\ sign_ok = true /\
+     ((pk = PrivRSA /\ a = 1) \/ (pk = PrivECDSA /\ a = 3))) /\
+  create_signature sign_ok pk h <> Panic.
+Proof.
+  unfold create_signature. pose proof (hash_table_spec h) as T.
+  destruct (hash_table (Z.of_N h)) as [[x ht]|].
+  - symmetry in T. apply rfc5246_hash_range in T.
+    destruct pk, sign_ok; (split; [|discriminate]); intros ha a; unfold SIG_RSA, SIG_ECDSA; split;
+      try discriminate;
+      try (intros H; inversion H; subst; intuition (auto; discriminate));
+      try (intros (-> & _ & S & [[P ->]|[P ->]]); (discriminate || reflexivity)).
+  - symmetry in T. apply rfc5246_hash_none in T.
+    split; [|discriminate]. intros ha a. split; [discriminate | intros (_ & R & _); contradiction].
+Qed.
+
 (* NewSignatureVerifier's conditions *)
 Lemma policy_conditions bits c allow :
   rsa_too_small bits = (bits <? 2048)%Z /\ rsa_refuse allow = negb allow /\
